@@ -171,6 +171,7 @@ EXTRA2 = {
  "C13": " Undeclared edge type numbers, pairwise.",
  "C15": " Size classes 300 and 2000 with a thinned depth sweep.",
  "C17": " sync.Pool is inside the seam (deterministic LIFO); a ThreadSanitizer report counts when re-detected at least once in 8 fresh-process replays of its schedule.",
+ "C20": " The seam is bound to the implementation: for every crash history the uninstrumented binary runs the same store under strace and the mutating system calls (with byte counts) must equal the seam's mutating steps; a mismatch is recorded as reduced coverage.",
  "C19": " One backend value for a whole history while the directory is removed from outside or Options.Path is re-pointed; relative configured path (working directory) and umask start states.",
 }
 for k, v in EXTRA2.items():
